@@ -192,7 +192,8 @@ const LOCALS: &[&str] = &["a", "b", "x", "y", "c"];
 const TYPE_NAMES: &[&str] = &["A", "B", "T"];
 const CTOR_NAMES: &[&str] = &["A", "B", "C", "D"];
 const LABELS: &[&str] = &["l", "x", "n"];
-const MOD_NAMES: &[&str] = &["m", "n", "p", "q/sub"];
+// directories called like the source directories themselves are legal module path segments
+const MOD_NAMES: &[&str] = &["m", "n", "p", "q/sub", "test/h", "src/g"];
 
 pub struct Cfg {
     pub max_modules: usize,
